@@ -23,6 +23,7 @@ structure Cfg where
   mods : List ModSpec
   procs : List Persist.Proc
   features : Option Nat
+  bidi : Bool                       -- the BiDirectional() init option
 deriving Repr
 
 inductive Op where
@@ -33,7 +34,7 @@ deriving DecidableEq, Repr
 inductive Ev where
   | read                                                   -- the input was read to EOF
   | init (i : Nat) (name params out : Bytes)               -- InitContext of module i: context name, parameters, output path
-  | exec (i : Nat) (targets pkgs : List Bytes)             -- Execute of module i: sorted target names / package names
+  | exec (i : Nat) (targets pkgs : List Bytes) (bidi : Bool)   -- Execute of module i: sorted target names / package names; the AST it is given records dependents (bidirectional) or not
   | write (files : List Persist.RF) (error : Option Bytes) (features : Option Nat)
   | astRet                                                 -- AST() returned the (one) AST
   | died                                                   -- fail-stop (outside the property's domain)
@@ -54,7 +55,7 @@ def initEvents (c : Cfg) : List Ev :=
 
 def execEvents (c : Cfg) : List Ev :=
   (List.range c.mods.length).zip c.mods |>.map fun (i, _) =>
-    .exec i (sortDedup c.targets) (sortDedup (c.files.map (·.2)))
+    .exec i (sortDedup c.targets) (sortDedup (c.files.map (·.2))) c.bidi
 
 def allArts (c : Cfg) : List Persist.Art := (c.mods.map (·.arts)).flatten
 
